@@ -229,6 +229,12 @@ def random_alloc(rng: random.Random, unit: int = 32):
                     k = rng.randint(0, left)
                     rat.append(k); left -= k
         cells.append(rect + [rng.randint(0, 2), 0, rat])
+    if rng.random() < 0.15:
+        # "any recorded depths": an allocation that has been refined many times already (seeded C12-12: nothing may
+        # depend on how deep a cell is)
+        d0 = rng.choice([7, 8, 9, 15])
+        for c in cells:
+            c[4] += d0
     # every listed module needs a positive total
     for m in range(nm):
         if any(c[6][m] >= 0 for c in cells) and not any(c[6][m] > 0 for c in cells):
